@@ -25,13 +25,15 @@ package sourcerunner
 // placeholder on the output stream and one entry into the key-by fetcher, and a placeholder is
 // resolved by taking exactly one result from the fetcher and routing its keyed events in order.
 // The source runner routes with the SAME key space as the operators own state with: key-group
-// count first, then one range per operator (C05: routing agrees with ownership).
+// count first, then one range per operator (C05: routing agrees with ownership), and connection i
+// of the cluster leads to operator i of the job's list (an operator owns range i by that position).
 //@ func newOperatorCluster
 //@   property C05 C04
 //@   nosafety
 //@   requires params != nil
 //@   atcall NewKeySpace: arg0 == params.keyGroupCount && arg1 == len(params.operators)
 //@   ensures result != nil && result.keyGroupCount == params.keyGroupCount && len(result.operators) == len(params.operators)
+//@   atcall newBatchingOperator: arg1 == params.operators[i]
 //@   loop 0:
 //@     invariant len(operators) == len(params.operators)
 
